@@ -208,10 +208,10 @@ def r2(F, R):
             in_loop = all(any(bb in body for body in loops.values()) for bb, _t in pops)
             # loop bound is the split field
             bound_ok = False
-            for bb, t in b.calls():
-                if strip_generics(t["callee"].get("path", "")).endswith("IntoIterator::into_iter"):
-                    s = vt_str(b.value(t["args"][0]))
-                    if "background_split" in s and "Range" in s and s.count("0") >= 1:
+            for h_, body_ in loops.items():
+                if pops and all(bb in body_ for bb, _t in pops):
+                    n_, how_ = K.loop_trip_count(b, h_, body_)
+                    if n_ is not None and Rl.self_field_name(n_) == "background_split":
                         bound_ok = True
             split_w = [(wb, bb, stt, v, how) for (wb, bb, stt, v, how) in K.field_writers(F, adt, "background_split") if wb.path == b.path]
             split_ok = len(split_w) == 1 and "len" in vt_str(split_w[0][3]) and any(f in vt_str(split_w[0][3]) for f in dq)
